@@ -252,6 +252,13 @@ func verifHelperServer(fault string, log *verifHelperLog) int {
 		return 1
 	}
 	inst := verifInst(int(req.Protocol), int(req.HttpVersion), req.UseTls, len(req.ClientTlsCert) > 0)
+	if req.UseTls && req.ServerCreds != nil && pid%2 == 0 {
+		// "If it chooses to use a different certificate and key, it must send back the corresponding
+		// certificate": every other server process serves with a certificate of its own
+		if cert, key, cerr := internal.NewServerCert(); cerr == nil {
+			req.ServerCreds = &conformancev1.TLSCreds{Cert: cert, Key: key}
+		}
+	}
 	log.emit(map[string]any{"e": "Started", "inst": inst, "pid": pid})
 	gone := func(code int) int {
 		log.emit(map[string]any{"e": "Gone", "pid": pid})
